@@ -110,6 +110,11 @@ def build_harness(ctx):
         bins.add("go2coq")
     with Lock("go"):
         shutil.copyfile(os.path.join(REPO, "go.sum"), os.path.join(HARNESS, "go.sum"))
+        gm = os.path.join(HARNESS, "go.mod")
+        txt = open(gm).read()
+        new = re.sub(r"(?m)^replace github.com/simimpact/srsim => .*$", "replace github.com/simimpact/srsim => " + REPO, txt)
+        if new != txt:
+            open(gm, "w").write(new)
         for b in sorted(bins):
             rc, out = sh(["go", "build", "-tags", "verif", "-o", os.path.join(HARNESS, "bin", b), "./cmd/" + b],
                          cwd=HARNESS, timeout=900)
